@@ -630,13 +630,13 @@ def c01_rule_b(ctx):
 
 
 def run(ctx):
-    rule_g(ctx)
-    rule_a(ctx)
-    rule_b(ctx)
-    rule_c(ctx)
-    rule_d(ctx)
-    rule_e(ctx)
-    rule_f(ctx)
+    ctx.guard(rule_g, ctx)
+    ctx.guard(rule_a, ctx)
+    ctx.guard(rule_b, ctx)
+    ctx.guard(rule_c, ctx)
+    ctx.guard(rule_d, ctx)
+    ctx.guard(rule_e, ctx)
+    ctx.guard(rule_f, ctx)
     # transformation corrections are applied through the shared BaseCorrection workflow (copy / overwrite, per-slice series handling)
     from . import c10
     from .common import shared
